@@ -3169,7 +3169,12 @@ func (db *DB) newGuardSet(owner uint64) *GuardSet {
 // Returns an error if no locks are supplied.
 func (db *DB) TryLocks(ctx context.Context, owner uint64, lockTypes []LockType) (bool, error) {
 	guardSet := db.CreateGuardSetIfNotExists(owner)
-	for _, lockType := range lockTypes {
+
+	// A request over a byte range is granted or refused as a whole. Remember the
+	// state each guard had so that a refusal leaves the earlier locks as they were.
+	prevStates := make([]RWMutexState, 0, len(lockTypes))
+
+	for i, lockType := range lockTypes {
 		guard := guardSet.Guard(lockType)
 
 		// There is a race condition where a passive checkpoint can copy out data
@@ -3185,9 +3190,11 @@ func (db *DB) TryLocks(ctx context.Context, owner uint64, lockTypes []LockType) 
 			db.writeLock.State() != RWMutexStateUnlocked && // is there a writer?
 			guardSet.write.State() != RWMutexStateExclusive { // is this owner the writer?
 			TraceLog.Printf("[TryLock(%s)]: type=%s owner=%d status=IMPLICIT-FAIL", db.name, lockType, owner)
+			restoreGuards(guardSet, lockTypes[:i], prevStates)
 			return false, nil
 		}
 
+		prevState := guard.State()
 		ok := guard.TryLock()
 
 		status := "OK"
@@ -3197,8 +3204,10 @@ func (db *DB) TryLocks(ctx context.Context, owner uint64, lockTypes []LockType) 
 		TraceLog.Printf("[TryLock(%s)]: type=%s owner=%d status=%s", db.name, lockType, owner, status)
 
 		if !ok {
+			restoreGuards(guardSet, lockTypes[:i], prevStates)
 			return false, nil
 		}
+		prevStates = append(prevStates, prevState)
 
 		// TODO(fwd): Move remote lock to lock byte on database.
 
@@ -3211,6 +3220,25 @@ func (db *DB) TryLocks(ctx context.Context, owner uint64, lockTypes []LockType) 
 		//}
 	}
 	return true, nil
+}
+
+// restoreGuards puts the guards of lockTypes back into the given states. It is
+// used when a request for several locks is refused part way through.
+func restoreGuards(guardSet *GuardSet, lockTypes []LockType, states []RWMutexState) {
+	for i, lockType := range lockTypes {
+		guard := guardSet.Guard(lockType)
+		if guard.State() == states[i] {
+			continue
+		}
+		switch states[i] {
+		case RWMutexStateUnlocked:
+			guard.Unlock()
+		case RWMutexStateShared:
+			guard.TryRLock() // downgrade, always succeeds
+		case RWMutexStateExclusive:
+			guard.TryLock() // upgrade back; refused only if another owner got in meanwhile
+		}
+	}
 }
 
 // CanLock returns true if all locks can acquire a write lock.
@@ -3230,8 +3258,11 @@ func (db *DB) CanLock(ctx context.Context, owner uint64, lockTypes []LockType) (
 // Returns an error if no locks are supplied.
 func (db *DB) TryRLocks(ctx context.Context, owner uint64, lockTypes []LockType) bool {
 	guardSet := db.CreateGuardSetIfNotExists(owner)
-	for _, lockType := range lockTypes {
-		ok := guardSet.Guard(lockType).TryRLock()
+	prevStates := make([]RWMutexState, 0, len(lockTypes))
+	for i, lockType := range lockTypes {
+		guard := guardSet.Guard(lockType)
+		prevState := guard.State()
+		ok := guard.TryRLock()
 
 		status := "OK"
 		if !ok {
@@ -3240,8 +3271,10 @@ func (db *DB) TryRLocks(ctx context.Context, owner uint64, lockTypes []LockType)
 		TraceLog.Printf("[TryRLock(%s)]: type=%s owner=%d status=%s", db.name, lockType, owner, status)
 
 		if !ok {
+			restoreGuards(guardSet, lockTypes[:i], prevStates)
 			return false
 		}
+		prevStates = append(prevStates, prevState)
 	}
 	return true
 }
